@@ -33,6 +33,7 @@ Definition pushdata (ll : nat) (minlen : N) (r : bytes) : nxres :=
   | Some (lenb, r1) =>
     let n := Z.to_N (le_val lenb) in
     if n <? minlen then NxErr LeNonMinimalPush
+    else if blen r1 <? n then NxErr LeEarlyEnd       (* take_slice_or_kill: data.len() >= len *)
     else match split_n n r1 with
          | Some (d, r') => NxIns (RPush d) r'
          | None => NxErr LeEarlyEnd
